@@ -9,10 +9,10 @@ CONSTANT Wide
 
 Zeros == [i \in 1..40 |-> 48]
 Hex(a) == [i \in 1..40 |-> HexDigit((a + i * 7) % 16)]
-Oids == IF Wide THEN {Zeros, Hex(1), Hex(5)} ELSE {Zeros, Hex(1)}
-Names == { <<65>>, <<65, 32, 66>>, <<195, 169, 46>> } \cup (IF Wide THEN { <<65, 32, 32, 66, 46>>, <<34, 120>> } ELSE {})
-Emails == { <<>>, <<97, 64, 120>> } \cup (IF Wide THEN { <<64>> } ELSE {})
-Secs == { <<48>>, <<49, 55, 48, 48, 48, 48, 48, 48, 48, 48>>, <<57, 57, 57, 57, 57, 57, 57, 57, 57, 57, 57>> }
+Oids == {Zeros, Hex(1)}
+Names == { <<65>>, <<65, 32, 66>>, <<195, 169, 46>> } \cup (IF Wide THEN { <<34, 120, 32, 32, 66, 46>> } ELSE {})
+Emails == { <<>>, <<97, 64, 120>> }
+Secs == { <<48>>, <<57, 57, 57, 57, 57, 57, 57, 57, 57, 57, 57>> } \cup (IF Wide THEN {} ELSE { <<49, 55, 48, 48, 48, 48, 48, 48, 48, 48>> })
 Tzs == { <<43, 48, 48, 48, 48>>, <<45, 48, 48, 48, 48>>, <<43, 48, 49, 51, 48>>, <<45, 49, 50, 48, 48>> }
 \*        +0000                     -0000                     +0130                     -1200
 MsgTok == { <<109>>, <<32>>, <<9>>, <<58, 32>>, <<13>>, <<255>> } \cup (IF Wide THEN { <<62>>, <<60>>, <<195, 169>> } ELSE {})
@@ -21,7 +21,7 @@ MaxMsg == IF Wide THEN 3 ELSE 2
 
 VARIABLES e, toks, done
 vars == <<e, toks, done>>
-Init == /\ e \in [old : Oids, new : IF Wide THEN Oids ELSE {Hex(1)}, name : Names, email : Emails, secs : Secs, tz : Tzs]
+Init == /\ e \in [old : Oids, new : {Hex(5)}, name : Names, email : Emails, secs : Secs, tz : Tzs]
         /\ toks = <<>> /\ done = FALSE
 Extend == ~done /\ Len(toks) < MaxMsg /\ \E t \in MsgTok : toks' = Append(toks, t) /\ UNCHANGED <<e, done>>
 Finish == ~done /\ done' = TRUE /\ UNCHANGED <<e, toks>>
